@@ -714,7 +714,9 @@ fn run_inst<T: Sc>(line: &Line, idx: usize, pools: &Pools, opts: &Opts, rep: &mu
     if idx % 3 != 0 || inst.m < 2 {
         let mrhs = inst.s >= 2 || idx % 5 == 0;
         let par = idx % 4 == 1;
-        let yexp: i32 = if T::NAME == "f64" { if idx % 2 == 0 { -40 } else { 40 } } else if idx % 2 == 0 { -20 } else { 20 };
+        // moderate and extreme factors: with 2^+-600 (f64) / 2^+-80 (f32) the SQUARES of the coefficients,
+        // residuals and Jacobian entries are not representable (any norm or test that squares them over- or underflows)
+        let yexp: i32 = if T::NAME == "f64" { [-40, 40, -600, 600][(idx / 2) % 4] } else { [-20, 20, -80, 80][(idx / 2) % 4] };
         let kk: usize = [1usize, 40, 7][idx % 3];
         let n2 = inst.n * kk;
         let ysc = T::of64((2.0f64).powi(yexp));
